@@ -125,7 +125,7 @@ func quote(s string) string {
 const mhead = "module m { namespace \"urn:m\"; prefix m; "
 
 func (r *runner) arguments() {
-	idStrings := []string{"a", "_a", "a-b.c", "A9", "1a", "-a", ".a", "a b", "xmlfoo", "XmLa", "xm", "é", "", "a:b", "a/b", "a*", "a_", "a..b"}
+	idStrings := []string{"a", "_a", "a-b.c", "A9", "1a", "-a", ".a", "a b", "xmlfoo", "XmLa", "xm", "é", "", "a:b", "a/b", "a*", "a_", "a..b", "a\u00a0", "\fa", "a\u200b"}
 	kinds := []argKind{
 		{"identifier", []string{"leaf %s { type string; }", "container %s;", "grouping %s;", "feature %s;", "identity %s;", "extension %s;", "typedef %s { type string; }", "choice c { case %s; }", "rpc %s;"},
 			b2(rfc6020.Identifier), idStrings},
@@ -146,13 +146,15 @@ func (r *runner) arguments() {
 		{"ordered-by", []string{"leaf-list l { type string; ordered-by %s; }"}, b2(rfc6020.OrderedBy), []string{"user", "system", "User", "SYSTEM", "", "any"}},
 		{"deviate", []string{"deviation \"/m:a\" { deviate %s; }"}, b2(rfc6020.Deviate), []string{"add", "delete", "replace", "not-supported", "Add", "not_supported", "remove", ""}},
 		{"range", []string{"leaf l { type int32 { range %s; } }"}, b2(rfc6020.Range),
-			[]string{"1..2", "min..max", "1 | 3..4", "1|3..4", " 1..2", "1 .. 2", "-5..-1", "1.5..2.5", "1", "1..", "..1", "1...2", "a", "1..2 |", "|1", "1 2", "", "min", "max..min", "0x1..2", "+1..2", "1..2..3"}},
+			[]string{"1..2", "min..max", "1 | 3..4", "1|3..4", " 1..2", "1 .. 2", "-5..-1", "1.5..2.5", "1", "1..", "..1", "1...2", "a", "1..2 |", "|1", "1 2", "", "min", "max..min", "0x1..2", "+1..2", "1..2..3", "1\u00a0..\u00a02", "1\f|\f3", "1\u3000|\u30003"}},
 		{"length", []string{"leaf l { type string { length %s; } }"}, b2(rfc6020.Length),
-			[]string{"1..2", "min..max", "0 | 3..4", "1 .. 2", "-1..2", "1.5", "1", "1..", "..1", "a", "1 |", "", "max", "+1", "1 2", "010", "0x1"}},
+			[]string{"1..2", "min..max", "0 | 3..4", "1 .. 2", "-1..2", "1.5", "1", "1..", "..1", "a", "1 |", "", "max", "+1", "1 2", "010", "0x1", "1\u00a0..\u00a02", "0\f|\f3"}},
 		{"key", []string{"list l { key %s; leaf a { type string; } leaf b { type string; } }"}, rfc6020.Key,
-			[]string{"a", "a b", "a  b", "a\tb", "a\nb", " a", "a ", "a,b", "a/b", "/a", "1a", "", "a a", "m:a", "xmla"}},
+			[]string{"a", "a b", "a  b", "a\tb", "a\nb", " a", "a ", "a,b", "a/b", "/a", "1a", "", "a a", "m:a", "xmla",
+				// separators that are white space for Unicode but not for RFC 6020 (sep = SP / HTAB / CRLF / LF)
+				"a\fb", "a\vb", "a\u00a0b", "a\u0085b", "a\u2028b", "a\u3000b", "a\u00a0", "a\r\nb", "a\rb"}},
 		{"unique", []string{"list l { key a; unique %s; leaf a { type string; } leaf b { type string; } container c { leaf d { type string; } } }"}, b2(rfc6020.Unique),
-			[]string{"b", "b c/d", "c/d", "m:b", "c/m:d", "/b", "b/", "b//c", "b c/", "", " b", "1b", "b,c"}},
+			[]string{"b", "b c/d", "c/d", "m:b", "c/m:d", "/b", "b/", "b//c", "b c/", "", " b", "1b", "b,c", "b\fc/d", "b\vc/d", "b\u00a0c/d", "b\u2028c/d", "b\u3000c/d", "b\tc/d", "b\nc/d"}},
 		{"absolute-schema-nodeid", []string{"deviation %s { deviate not-supported; }", "augment %s { leaf z { type string; } }"}, b2(rfc6020.AbsoluteSchemaNodeid),
 			[]string{"/m:a", "/m:a/m:b", "/a", "/a/b", "m:a", "a", "/", "/m:a/", "//a", "/m:1a", "/m:a b", "", "/m:a/..", "/m:a[k=1]"}},
 		{"descendant-schema-nodeid", []string{"uses g { refine %s { description \"d\"; } }"}, b2(rfc6020.DescendantSchemaNodeid),
